@@ -532,3 +532,88 @@ M.contract('exactly_lib.common.report_rendering.parts.full_exec_result:FullExeRe
            isinstance(result, failure_info_rendering.FailureInfoRenderer) == self._result.is_failure
            and (self._result.is_failure or result.render_sequence() == [])},
            raises_only=())
+
+# ------------------------------------------------------------------------------ phase steps and the parser of a case
+from exactly_lib.execution.impl import phase_step_execution
+from exactly_lib.execution.result import PhaseStepFailureException
+from exactly_lib.processing import processors as case_processors
+from exactly_lib.section_document import exceptions as document_exceptions
+
+
+def _mk_phase_step_failure(interp, o):
+    e = PhaseStepFailureException.__new__(PhaseStepFailureException)
+    e.failure = Any_.make(interp, 'failure')
+    return e
+
+
+def _mk_hard_error_exc(interp, o):
+    return HARD_ERROR_EXC.make(interp, 'hard_error')
+
+
+class ActionI(Interface):
+    """the action of a phase step (arbitrary code): a value, PhaseStepFailureException, HardErrorException, or
+    any other Exception"""
+    methods = {'__call__': Method(returns=Any_, event='action',
+                                  may_raise=(_mk_phase_step_failure, _mk_hard_error_exc, _mk_anything))}
+
+
+class FailureConstructorI(Interface):
+    target_class = phase_step_execution.PhaseStepFailureResultConstructor
+    methods = {'hard_error': Method(returns=Any_, event='hard_error'),
+               'internal_error': Method(returns=Any_, event='internal_error')}
+
+
+def _raised_by_action(trace):
+    return [e[2] for e in trace if e[0] == 'action:raised'][0]
+
+
+M.contract('exactly_lib.execution.impl.phase_step_execution:execute_action_and_catch_internal_error_exception',
+           params=dict(action_that_raises_phase_step_or_hard_error_exception=Iface(ActionI),
+                       failure_con=Iface(FailureConstructorI)),
+           raises={PhaseStepFailureException: {'ensures': lambda exc, trace:
+           (exc is _raised_by_action(trace)) if isinstance(_raised_by_action(trace), PhaseStepFailureException)
+           else (exc.failure is [e[2] for e in trace if e[0] == 'hard_error:returned'][0])
+           if isinstance(_raised_by_action(trace), HardErrorException)
+           else (exc.failure is [e[2] for e in trace if e[0] == 'internal_error:returned'][0])}},
+           # a HardErrorException is a HARD_ERROR failure of the step, anything else an INTERNAL_ERROR failure
+           raises_only=())
+
+
+def _mk_document_parse_error(interp, o):
+    if interp.st.choose(2) == 0:
+        e = document_exceptions.FileAccessError.__new__(document_exceptions.FileAccessError)
+        e._erroneous_path = Any_.make(interp, 'erroneous_path')
+        e._section_name = Opt(Str).make(interp, 'section_name')
+    else:
+        e = document_exceptions.FileSourceError.__new__(document_exceptions.FileSourceError)
+        e._maybe_section_name = Opt(Str).make(interp, 'section_name')
+        e._source_location_info = Any_.make(interp, 'source_location_info')
+        e._source = Any_.make(interp, 'source')
+    e._message = Str.make(interp, 'message')
+    e._location_path = FixedList(Any_).make(interp, 'location_path')      # non-empty (its constructors)
+    return e
+
+
+class CaseFileParserI(Interface):
+    """test_case_parser.new_parser(...).apply: the document or a ParseError of the document parser (C07)"""
+    methods = {'apply': Method(returns=Any_, may_raise=(_mk_document_parse_error,), event='parse')}
+
+
+from exactly_lib.processing.parse import test_case_parser
+
+M.model(test_case_parser.new_parser, lambda interp, args, kwargs: new_opaque(interp, CaseFileParserI, 'file_parser'))
+
+M.contract('exactly_lib.processing.processors:_Parser.apply',
+           params=dict(self=Inst(case_processors._Parser, _test_case_parsing_setup=Any_), test_case=Iface(CaseRefI),
+                       test_case_plain_source=Str),
+           raises={
+               # a syntax error in the case => ProcessError (=> SYNTAX_ERROR); an included file that cannot be
+               # read => AccessorError FILE_ACCESS_ERROR
+               tcp.ProcessError: {'ensures': lambda trace:
+               isinstance([e[2] for e in trace if e[0] == 'parse:raised'][0], document_exceptions.FileSourceError)},
+               tcp.AccessorError: {'ensures': lambda exc, trace:
+               exc.error is tcp.AccessErrorType.FILE_ACCESS_ERROR
+               and isinstance([e[2] for e in trace if e[0] == 'parse:raised'][0],
+                              document_exceptions.FileAccessError)},
+           },
+           raises_only=())
